@@ -393,6 +393,18 @@ let () =
       out (Printf.sprintf "H %d par=%s pos=%s path=%s model=%s fm=%s name=%s ident=%d cd=%s reft=%s minver=%s" k par pos path md fm nm ident cd reft mv)
     ) !handles;
     List.iteri (fun k f -> out (Printf.sprintf "F %d model=%d ver=%d" k (int_of_n f.f_model) (int_of_n f.f_version))) wv.w_files;
+    (* the depth-first iterators (Tree/Iter.v): model- and file-scoped, unlimited and max_depth 2 *)
+    let rec nat_of_int (i : int) : nat = if i <= 0 then O else S (nat_of_int (i - 1)) in
+    let rec int_of_nat (x : nat) : int = match x with O -> 0 | S y -> 1 + int_of_nat y in
+    let ifuel = nat_of_int (4 * (int_of_n wv.w_next) + 4000) in
+    let show_dfs r = match r with
+      | Val l -> String.concat "," (List.map (fun (d, i) -> Printf.sprintf "%d:%s" (int_of_nat d) (hnum i)) l)
+      | Pan _ -> raise (Stop "PANIC") | Fuel -> raise (Stop "HANG") in
+    List.iteri (fun mi _ ->
+      List.iter (fun md -> out (Printf.sprintf "D %d md=%d [%s]" mi md (show_dfs (model_elements_dfs ifuel (n_of_int mi) (n_of_int md) wv)))) [0; 2]) wv.w_models;
+    List.iteri (fun k f ->
+      if int_of_n f.f_model < List.length wv.w_models then
+        List.iter (fun md -> out (Printf.sprintf "DF %d md=%d [%s]" k md (show_dfs (file_elements_dfs ifuel (n_of_int k) (n_of_int md) wv)))) [0; 2]) wv.w_files;
     if !serialize_obs then
       List.iteri (fun k _ ->
         match q_serialize_file t tab_el tab_at tab_en check_fn float_fmt attr_schema (n_of_int k) !w with
